@@ -29,10 +29,10 @@ var logGuards = guardTable{
 
 func runC20(r *engine.Run) {
 	r.Rule("LOCK-ring", "the ring cursor (MemCore.r), every slot value (ring.Ring.Value) and every ring traversal call (Do/Next/Prev/Len/Move) reachable from the exported methods of MemCore/MemLogger is accessed with MemCore.mu held in the required mode, and the mutex locked in a function belongs to the same core value whose ring the function touches")
-	r.Rule("AGREE-share", "no MemCore is constructed with a by-value copy of another core's ring cursor (a field that Write reassigns): a derived core must not own a second cursor over the shared ring; if it shares the ring it must share the mutex of the same core; in Write the ring cursor and slots are stored only where mc.root == nil tested true (a derived core forwards to its root)")
+	r.Rule("AGREE-share", "no MemCore value is copied as a whole (c := *core), and no MemCore is constructed with a by-value copy of another core's ring cursor (a field that Write reassigns): a derived core must not own a second cursor over the shared ring; if it shares the ring it must share the mutex of the same core; in Write the ring cursor and slots are stored only where mc.root == nil tested true (a derived core forwards to its root)")
 	r.Rule("FRESH-entry", "no field of a LoggedEntry is stored to unless the entry object was allocated in the same function (entries already handed out by GetLogs are never rewritten)")
 	r.Rule("SNAPSHOT-all", "GetLogs visits every slot of the ring: it traverses with ring.Do from the cursor, or with a loop counted up to the ring's Len()/the buffer size; a walk that stops at a sentinel (back at the cursor, first empty slot) is not accepted because it skips the slot it stops at once the ring is full; the visited non-nil slot values are stored into the slice GetLogs returns")
-	r.Rule("ORDER-advance", "Write stores the new entry into the slot at the cursor and then advances the cursor by exactly one (*ring.Ring).Next(), in that order, on every path that touches the ring")
+	r.Rule("ORDER-advance", "Write stores the new entry into the slot at the cursor and then advances the cursor by exactly one (*ring.Ring).Next(), in that order, on every path that touches the ring; no return is reached after the ring was consulted without the entry having been stored (no entry handed to the core is dropped, e.g. as a presumed duplicate)")
 	r.Rule("PAIR-unlock", "every Lock/RLock of a mutex is followed on every path to a return of the acquiring function by the matching Unlock/RUnlock on the same mutex or by a deferred one registered on the path: no operation returns with the lock held (every later operation on the object would block)")
 	r.Rule("REF-pooled", "the byte view (Bytes()) of a pooled zap encoder buffer is only handed to calls while the function owns the buffer: it is never returned, stored, put into a map, sent, given to a goroutine, or used after a Free of that buffer")
 	r.Rule("WHO-filter", "the cores of a logger are combined by a plain zapcore.NewTee and core/logging builds no sampling or level-raising core (NewSampler*, NewIncreaseLevelCore, IncreaseLevel): every entry a logger accepts reaches the in-memory core")
@@ -189,6 +189,25 @@ func agreeShare(r *engine.Run) {
 			r.Fail(rule, construct, r.P.Pos(al.Pos()), detail)
 		})
 	}
+	// a whole-struct copy of a core (c := *core) copies the cursor just the same
+	for _, f := range funcsOfPkg(r, pkgLog) {
+		o := ord{}
+		engine.Instrs(f, func(in ssa.Instruction) {
+			ld, ok := in.(*ssa.UnOp)
+			if !ok || ld.Op != token.MUL {
+				return
+			}
+			nm := namedOf(ld.Type())
+			if nm == nil || nm.Obj().Name() != "MemCore" || nm.Obj().Pkg() == nil || !strings.HasSuffix(nm.Obj().Pkg().Path(), pkgLog) {
+				return
+			}
+			if _, isStruct := ld.Type().Underlying().(*types.Struct); !isStruct {
+				return
+			}
+			r.Fail(rule, o.next(fn(f)+"|copy of a MemCore"), r.P.Pos(ld.Pos()),
+				"a MemCore is copied as a whole (c := *core): the copy has a ring cursor of its own, Write advances only one of them, so the loggers built on the copy overwrite retained entries at stale positions or the snapshot is taken from a cursor that no longer moves")
+		})
+	}
 	if n == 0 {
 		r.Anchor(rule, fmt.Errorf("unresolved anchor: no MemCore construction found"))
 	}
@@ -311,6 +330,37 @@ func orderAdvance(r *engine.Run) {
 			}
 		}
 	}
+	// no drop: a return that is reached after the ring was looked at (a load of the
+	// cursor) is reached only through the slot store - Write never decides that an
+	// entry it was handed does not need a slot
+	for _, ret := range engine.Returns(w) {
+		if ret.Block().Comment == "recover" {
+			continue
+		}
+		touched := false
+		engine.Instrs(w, func(in ssa.Instruction) {
+			fa, ok := in.(*ssa.FieldAddr)
+			if !ok || !isNamed(fa.X.Type(), pkgLog, "MemCore") || engine.FieldOf(fa).Name() != "r" {
+				return
+			}
+			if fa.Block() == ret.Block() || fa.Block().Dominates(ret.Block()) {
+				touched = true
+			}
+		})
+		if !touched {
+			continue // the forwarding path of a derived core
+		}
+		stored := false
+		for _, st := range slotStores {
+			if engine.InstrDominates(st, ret) {
+				stored = true
+			}
+		}
+		if !stored {
+			good = false
+			badAdvance = "a return of Write is reached after the ring was consulted but without the entry having been stored (" + r.P.Pos(ret.Pos()) + "): an entry handed to the core is dropped"
+		}
+	}
 	// every return that follows a slot store also follows an advance
 	for _, s := range slotStores {
 		for _, ret := range engine.Returns(w) {
@@ -328,8 +378,12 @@ func orderAdvance(r *engine.Run) {
 			}
 		}
 	}
-	r.Check(good, rule, fn(w), r.P.Pos(w.Pos()), "slot store at the cursor dominates the single Next() advance; no store after the advance",
-		"Write does not store at the cursor and then advance by one on every path")
+	detail := "Write does not store at the cursor and then advance by one on every path"
+	if badAdvance != "" {
+		detail += ": " + badAdvance
+	}
+	r.Check(good, rule, fn(w), r.P.Pos(w.Pos()), "slot store at the cursor dominates the single Next() advance; no store after the advance; no return after consulting the ring without the store",
+		detail)
 }
 
 func snapshotAll(r *engine.Run) {
